@@ -33,9 +33,11 @@ func init() {
 			"(G6/G16) no range over a Go map lets its randomised order reach a result: body effects are per-key (a slot selected by the key or value itself -- an entry reached through a second lookup, m2[m1[key]], is not: two keys can lead to it), iteration-local or commutative, or the accumulated slice is sorted afterwards on every path by a comparator that is total on the map's key type; " +
 			"(G7) no write site reachable from a parse writes memory that outlives the call (options value, extension object, package-level variables) or the input byte slice; " +
 			"(G8) no call path from a parse to clock, randomness or environment. " +
+			"(TIDZ) the key and the comparator of the trip accumulators agree: a start time / start date flagged absent is the zero value (the map key includes it, TripID.Less skips it), so no two keys tie in the sort and come out in map order. " +
 			"G8 also covers reads of library variables that depend on the process environment (time.Local); the sort comparators must be total on the key (field coverage and stage qualifiers). Not decided: determinism of the standard library and protobuf runtime; time.LoadLocation depends on the host zone database.",
 		Assumptions: []string{"distinct map keys select distinct per-key objects (values of the id-keyed accumulators are allocated one per key)"},
 		Rules: []Rule{
+			{Name: "TIDZ", Doc: "a start time / start date flagged absent is the zero value: the trip identifier is a map key that includes them while TripID.Less skips them when flagged absent, so a left-over value makes two keys that tie in the sort and come out in map order", MinInstances: 2, Run: func(c *Ctx) { runStartAcceptance(c, "TIDZ") }},
 			{Name: "G6", Doc: "map-range order must not reach results", MinInstances: 3, Run: func(c *Ctx) {
 				fns, _ := c.scope(c.allParseRoots(), scopeOpts{})
 				runG6(c, fns)
